@@ -100,6 +100,15 @@ def make_prog(seed, i):
         b = spec.Method("rd%d" % k, ("ref", None), [("sel", ("prim", "u8"))], ("result", ok, err, "dip"))
         op.methods += [a, b]
         pairs.append((a, b))
+    # the same encoding where Rust *receives* an option from foreign code and hands one to it: callback arguments and returns
+    cbpl = [("prim", q) for q in PRIM_SA] + [("enum", en.name), ("struct", "Pl")]
+    for k in range(3 + i % 3):
+        pa, pr_ = rng.choice(cbpl), rng.choice(cbpl)
+        extra = [("prim", rng.choice(list(PRIM_SA)))] if rng.random() < 0.5 else []
+        a = spec.Method("cs%d" % k, ("ref", None), [("f", ("cb", extra + [("opt", pa, "std")], ("opt", pr_, "std"), False))], ("unit",))
+        b = spec.Method("cd%d" % k, ("ref", None), [("f", ("cb", extra + [("opt", pa, "dip")], ("opt", pr_, "dip"), False))], ("unit",))
+        op.methods += [a, b]
+        pairs.append((a, b))
     # optional pointers
     pr = spec.Method("pref", ("ref", "a"), [("x", ("oref", "Hub", False, None, True))], ("oref", "Hub", False, "a", True), lifetimes=["a"])
     pb = spec.Method("pbox", ("ref", None), [("x", ("oref", "Hub", True, None, True))], ("obox", "Hub", True))
@@ -113,6 +122,8 @@ def make_prog(seed, i):
     for a, b in pairs:
         for m in (a, b):
             t = m.ret
+            if t[0] == "unit":
+                continue
             if t[0] == "opt":
                 rty = "diplomat_runtime::DiplomatResult<%s, ()>" % ffi_ty(prog, t[1])
                 sizes[m.abi_name] = result_sa(prog, t[1], ("unit",))[0]
@@ -134,6 +145,11 @@ def build_script(prog, pairs, rng):
         for rep in range(3):
             s1 = sc.call(op, a)
             args = {k: v for k, v in s1["args"].items() if k != "self"}
+            for k, v in list(args.items()):
+                if isinstance(v, dict) and "cb" in v:          # the twin call gets its own callback (same scripted invocations)
+                    args[k] = copy.deepcopy(v)
+                    sc.cb_counter += 1
+                    args[k]["cb"] = sc.cb_counter
             ret = copy.deepcopy(s1["ret"])
             strip_ids(ret)
             sc.call(op, b, force_self=s1["args"]["self"], force_args=args, force_ret=ret)
@@ -164,6 +180,9 @@ def decls(header, abi):
     for l in header.splitlines():
         if re.search(r"\b%s(_result)?\b" % re.escape(abi), l):
             out.append(re.sub(r"\s+", " ", l.replace(abi, "FN")).strip())
+    # the callback struct of each callback parameter, member by member (its run_callback member carries the option types)
+    for m in re.finditer(r"typedef struct (DiplomatCallback_%s_\w+) \{(.*?)\} \1;" % re.escape(abi), header, re.S):
+        out += [re.sub(r"\s+", " ", l).strip() for l in m.group(2).splitlines() if l.strip()]
     return out
 
 
@@ -312,7 +331,7 @@ def main(tier, seed):
         stats["size_probes"] += len(r["sizes"])
         stats["events_observed"] += r.get("observed_events", 0)
         for a, b in r["pairs"]:
-            kinds.add(spec.ty_sig(a.ret))
+            kinds.add(spec.ty_sig(a.ret) if a.ret != ("unit",) else spec.ty_sig(a.params[0][1]))
         for an, bn, da, db in r["decl_viol"][:3]:
             chk.violation("p%d_decl_%s" % (i, an), "p%d: %s and %s differ only in spelling but their C declarations differ: %s vs %s" % (i, an, bn, da, db),
                           {"a": da, "b": db, "dir": r["dir"]})
